@@ -44,6 +44,7 @@ type trSpec struct {
 	Props   []string // properties whose models rest on it
 	File    string
 	Func    string // "recvType.method" or "func"
+	Lit     int    // k>0: the unit is the body of the k-th function literal inside Func (pre-order); Loop counts inside it
 	Loop    int    // 0: whole body; k>0: body of the k-th for / range statement (pre-order)
 	Wrap    string // "" (mathematical integers) or "u64" / "u32": + and - wrap
 	Atoms   []atom
@@ -455,8 +456,25 @@ func translateOne(repo string, s *trSpec) (term string, err error) {
 		return "", fmt.Errorf("function %s not found in %s", s.Func, s.File)
 	}
 	body := fd.Body
+	if s.Lit > 0 {
+		n := 0
+		var lit *ast.FuncLit
+		ast.Inspect(fd.Body, func(x ast.Node) bool {
+			if fl, ok := x.(*ast.FuncLit); ok && lit == nil {
+				n++
+				if n == s.Lit {
+					lit = fl
+				}
+			}
+			return lit == nil
+		})
+		if lit == nil {
+			return "", fmt.Errorf("%s has no function literal number %d", s.Func, s.Lit)
+		}
+		body = lit.Body
+	}
 	if s.Loop > 0 {
-		body = nthLoop(fd.Body, s.Loop)
+		body = nthLoop(body, s.Loop)
 		if body == nil {
 			return "", fmt.Errorf("%s has no loop number %d", s.Func, s.Loop)
 		}
@@ -493,7 +511,7 @@ func runTranslator(repo, outDir, pinPath string, pin bool) {
 		s := &trSpecs[i]
 		names = append(names, s.Name)
 		term, err := translateOne(repo, s)
-		st := map[string]interface{}{"props": s.Props, "file": s.File, "func": s.Func, "loop": s.Loop}
+		st := map[string]interface{}{"props": s.Props, "file": s.File, "func": s.Func, "loop": s.Loop, "lit": s.Lit}
 		if err != nil {
 			st["translated"] = false
 			st["why"] = err.Error()
